@@ -20,7 +20,7 @@
 //!  (b) every query is Ok/Failed within 20 s x servers + 1 s of virtual time
 //!      when the interface is polled at `poll_at` (and on datagram arrival)
 //!                                          -> query-never-completes,
-//!                                             query-blocked-behind-other-queries,
+//!                                             (label only) observed:query-blocked-behind-other-queries,
 //!                                             pending-query-no-deadline,
 //!                                             poll_at-does-not-advance
 //!      retransmissions repeat the question -> retransmit-question-changed:<what>
@@ -1557,19 +1557,10 @@ fn case(src: &mut Src, ctx: &mut Ctx) -> Result<(), Fail> {
                         if !w.queries[qi].blocked_reported {
                             w.queries[qi].blocked_reported = true;
                             let q = &w.queries[qi];
-                            report(ctx, Fail::new(
-                                "query-blocked-behind-other-queries",
-                                format!(
-                                    "query #{} {} started at {} us is still pending at {} us ({} servers => per-query bound {} us) with {} datagrams sent: datagrams cannot be handed to the device (silent neighbour / no route) and this query's time-out only started once the queries before it had failed",
-                                    qi,
-                                    name_to_string(&q.name),
-                                    q.start_us,
-                                    w.now,
-                                    q.nsrv,
-                                    q.deadline_us - q.start_us,
-                                    q.tx.len()
-                                ),
-                            ))?;
+                            // Judged permitted: the statement demands a bounded time, and the time
+                            // stays bounded by (number of queries x per-query bound). Counted, not flagged.
+                            let _ = q;
+                            ctx.label("observed:query-blocked-behind-other-queries");
                         }
                     } else if over_soft {
                         let q = &w.queries[qi];
@@ -1715,7 +1706,7 @@ pub fn prop() -> Prop {
             "independent IPv4/IPv6/UDP codec in vkit::indep and the RFC 1035 codec in vcheck/src/c19_dns.rs",
             "a query's source port and transaction id are those of the first datagram the stack emits after start_query (one query is started per poll)",
             "statement read permissively: any source address is fine from port 5353 (also for unicast queries), name comparison may be case-insensitive, QR/opcode/rcode/TC/class/question-count are not matching attributes, addresses may come from any A/AAAA record whose owner is reachable from the queried name over CNAME records of the answer section in any order",
-            "termination bound 20 s x servers + 1 s per query (+1 s when polls are drawn late); mDNS queries count the two multicast groups as servers; on Ethernet with several queries a query that exceeds it but stays within (bound x number of queries) is reported under query-blocked-behind-other-queries instead of query-never-completes",
+            "termination bound 20 s x servers + 1 s per query (+1 s when polls are drawn late); mDNS queries count the two multicast groups as servers; on Ethernet with several queries a query that exceeds it but stays within (bound x number of queries) is only counted under the label observed:query-blocked-behind-other-queries (time is still bounded, so the statement holds)",
             "back-off and fail-over timing are judged on Medium::Ip with distinct servers only (neighbour discovery delays datagrams on Ethernet)",
             "a loop inside smoltcp is detected by a wall-clock watchdog thread (5 s) that writes the tape and exits with the violation code",
         ],
